@@ -123,6 +123,9 @@ pub enum Mode {
     CrashAtWrite { nth: usize },
     /// No faults; random short sleeps / yields before operations.
     Jitter,
+    /// Fail every operation with this verb on exactly this path (a fault addressed by path is
+    /// the same fault under every schedule).
+    FailPath { verb: V, path: String, kind: ErrorKind },
     /// Every operation selected by `only` fails independently with probability p.
     FailRandom { p: f64 },
 }
@@ -258,6 +261,13 @@ impl Icept {
                 }
             }
             Mode::Jitter => Decision::Proceed,
+            Mode::FailPath { verb: fv, path, kind } => {
+                if verb == fv && op.path == path {
+                    Decision::Fail(kind)
+                } else {
+                    Decision::Proceed
+                }
+            }
             Mode::CrashAtWrite { nth } => {
                 if verb == V::Write {
                     st.writes_seen += 1;
